@@ -69,6 +69,27 @@ def _generate_model_code(
 
     # Parameters
     if free_parameters is not None:
+        # A parameter defined by an initial assignment is emitted as a constant,
+        # which is wrong as soon as one of its inputs is left free
+        moving = set(free_parameters)
+        raw_parameters = model.get_raw_parameters()
+        raw_derived = model.get_raw_derived()
+        for name in model._create_cache().order:  # noqa: SLF001
+            if (der := raw_derived.get(name)) is not None:
+                args = der.args
+            elif (par := raw_parameters.get(name)) is not None:
+                args = getattr(par.value, "args", [])
+            else:
+                continue
+            if moving.isdisjoint(args):
+                continue
+            moving.add(name)
+            if name in raw_parameters and name not in free_parameters:
+                msg = (
+                    f"Parameter '{name}' is computed from the free parameters "
+                    f"{sorted(moving.intersection(args))}, which is not supported."
+                )
+                raise NotImplementedError(msg)
         for key in free_parameters:
             parameters.pop(key)
     if len(parameters) > 0:
